@@ -367,3 +367,134 @@ Proof.
     [lia | lia | apply c4_pst0_good |].
   destruct (fst (c4_pwalk 102 g recon root 0 c4_pst0)); try contradiction; auto.
 Qed.
+
+(* ------------------------------------------------------------------ (c) name/number trees *)
+Lemma c4_deepen_inv : forall fuel g a first ae path seen added,
+  c4_wf g -> (forall x, In x added -> In x seen) -> NoDup added -> incl added (c4_keys g) ->
+  (length g < fuel + length added)%nat ->
+  c4_deepen fuel g a first ae path seen <> C4dFuel /\
+  (forall p' leaf, c4_deepen fuel g a first ae path seen = C4dLeaf p' leaf \/ c4_deepen fuel g a first ae path seen = C4dEmpty p' leaf ->
+     (length p' + length added <= length path + length g)%nat).
+Proof.
+  induction fuel as [|f IH]; intros g a first ae path seen added Hwf Hsub Hn Hi Hlen.
+  - pose proof (c4_nodup_keys_le _ g added Hn Hi). lia.
+  - pose proof (c4_nodup_keys_le _ g added Hn Hi) as Hle.
+    cbn [c4_deepen]. destruct (c4_add a seen) as [ok seen'] eqn:Ea.
+    destruct ok; cbn [negb]; [|split; [discriminate | intros p' leaf [H|H]; discriminate]].
+    destruct (c4_find g a) as [nd|] eqn:Ef; [|split; [discriminate | intros p' leaf [H|H]; discriminate]].
+    assert (Ha0 : a <> 0) by (eapply c4_wf_find_nonzero; eauto).
+    destruct (c4_add_spec _ _ _ _ Ea Ha0) as [(_ & Hni & ->)|(Hx & _)]; [|discriminate].
+    assert (Hn' : NoDup (a :: added)) by (constructor; [intro Hx; apply Hni, Hsub, Hx | assumption]).
+    assert (Hi' : incl (a :: added) (c4_keys g)) by (intros x [Hx|Hx]; [subst; eapply c4_find_some_key; eauto | auto]).
+    pose proof (c4_nodup_keys_le _ g _ Hn' Hi') as Hle'. cbn [length] in Hle'.
+    destruct (1 <? c4n_items nd).
+    { split; [discriminate|]. intros p' leaf [H|H]; inversion H; subst; lia. }
+    destruct (c4n_kids nd) as [|k0 kl] eqn:Ek.
+    { destruct (ae && c4n_hasitems nd); split; try discriminate; intros p' leaf [H|H]; inversion H; subst; lia. }
+    destruct (nth_error (k0 :: kl) (if first then 0%nat else Nat.pred (length (k0 :: kl)))) as [next|];
+      [|split; [discriminate | intros p' leaf [H|H]; discriminate]].
+    destruct (c4_find g next); [|split; [discriminate | intros p' leaf [H|H]; discriminate]].
+    destruct (IH g next first ae ((a, if first then 0%nat else Nat.pred (length (k0 :: kl))) :: path) (a :: seen) (a :: added)) as [H1 H2];
+      try assumption.
+    + intros x [Hx|Hx]; [left; exact Hx | right; apply Hsub; exact Hx].
+    + cbn [length]. lia.
+    + split; [exact H1|]. intros p' leaf H. specialize (H2 p' leaf H). cbn [length] in H2. lia.
+Qed.
+
+(* NNTreeIterator::deepen, started on any path, ends within one round through the nodes *)
+Lemma nntree_deepen_fuel_lemma : forall g a first allow_empty path,
+  c4_wf g -> c4_deepen (S (length g)) g a first allow_empty path (map fst path) <> C4dFuel.
+Proof.
+  intros g a first ae path Hwf.
+  apply (c4_deepen_inv (S (length g)) g a first ae path (map fst path) []); try assumption;
+    [intros x [] | constructor | intros x [] | cbn; lia].
+Qed.
+
+(* ... and descends through at most as many nodes as the graph has *)
+Lemma nntree_deepen_depth_lemma : forall g a first allow_empty path p' leaf, c4_wf g ->
+  c4_deepen (S (length g)) g a first allow_empty path (map fst path) = C4dLeaf p' leaf ->
+  (length p' <= length path + length g)%nat.
+Proof.
+  intros g a first ae path p' leaf Hwf H.
+  destruct (c4_deepen_inv (S (length g)) g a first ae path (map fst path) []) as [_ H2]; try assumption;
+    [intros x [] | constructor | intros x [] | cbn; lia |].
+  specialize (H2 p' leaf (or_introl H)). cbn [length] in H2. lia.
+Qed.
+
+Lemma c4_nn_find_inv : forall fuel g node seen steps,
+  c4_wf g -> NoDup seen -> incl seen (c4_keys g) -> (length g < fuel + length seen)%nat ->
+  fst (c4_nn_find fuel g node seen steps) <> C4fFuel /\
+  snd (c4_nn_find fuel g node seen steps) + N.of_nat (length seen) <= steps + N.of_nat (length g).
+Proof.
+  induction fuel as [|f IH]; intros g node seen steps Hwf Hn Hi Hlen.
+  - pose proof (c4_nodup_keys_le _ g seen Hn Hi). lia.
+  - pose proof (c4_nodup_keys_le _ g seen Hn Hi) as Hle.
+    cbn [c4_nn_find]. destruct (c4_add node seen) as [ok seen'] eqn:Ea.
+    destruct ok; cbn [negb]; [|cbn; split; [discriminate | lia]].
+    destruct (c4_find g node) as [nd|] eqn:Ef; [|cbn; split; [discriminate | lia]].
+    assert (Ha0 : node <> 0) by (eapply c4_wf_find_nonzero; eauto).
+    destruct (c4_add_spec _ _ _ _ Ea Ha0) as [(_ & Hni & ->)|(Hx & _)]; [|discriminate].
+    assert (Hn' : NoDup (node :: seen)) by (constructor; assumption).
+    assert (Hi' : incl (node :: seen) (c4_keys g)) by (intros x [Hx|Hx]; [subst; eapply c4_find_some_key; eauto | auto]).
+    pose proof (c4_nodup_keys_le _ g _ Hn' Hi') as Hle'. cbn [length] in Hle'.
+    destruct (1 <? c4n_items nd); [cbn; split; [discriminate | lia]|].
+    destruct (c4n_kids nd) as [|k0 kl]; [cbn; split; [discriminate | lia]|].
+    destruct (c4n_pick nd) as [i|]; [|cbn; split; [discriminate | lia]].
+    destruct (nth_error (k0 :: kl) i) as [next|]; [|cbn; split; [discriminate | lia]].
+    destruct (IH g next (node :: seen) (steps + 1) Hwf Hn' Hi') as [H1 H2]; [cbn [length]; lia|].
+    split; [exact H1|]. cbn [length] in H2. lia.
+Qed.
+
+(* NNTreeImpl::findInternal's descent ends within one round through the nodes, after at most that many steps *)
+Lemma nntree_find_fuel_lemma : forall g root, c4_wf g ->
+  fst (c4_nn_find (S (length g)) g root [] 0) <> C4fFuel /\ snd (c4_nn_find (S (length g)) g root [] 0) <= N.of_nat (length g).
+Proof.
+  intros g root Hwf. destruct (c4_nn_find_inv (S (length g)) g root [] 0 Hwf) as [H1 H2];
+    [constructor | intros x [] | cbn; lia|]. split; [exact H1|]. cbn [length] in H2. lia.
+Qed.
+
+Lemma c4_nn_find_cyclic : forall fuel g node seen steps,
+  (forall k nd, c4_find g k = Some nd ->
+     (1 <? c4n_items nd) = false /\ exists i next, c4n_pick nd = Some i /\ nth_error (c4n_kids nd) i = Some next /\ In next (c4_keys g)) ->
+  In node (c4_keys g) ->
+  fst (c4_nn_find fuel g node seen steps) = C4fLoop \/ fst (c4_nn_find fuel g node seen steps) = C4fFuel.
+Proof.
+  induction fuel as [|f IH]; intros g node seen steps H Hin; [right; reflexivity|].
+  cbn [c4_nn_find]. destruct (c4_add node seen) as [ok seen'].
+  destruct ok; cbn [negb]; [|left; reflexivity].
+  destruct (c4_find_key_some _ g node Hin) as [nd Ef]. rewrite Ef.
+  destruct (H node nd Ef) as (Hit & i & next & Hp & Hn & Hk). rewrite Hit.
+  destruct (c4n_kids nd) as [|k0 kl] eqn:Ek; [destruct i; discriminate|].
+  rewrite Hp, Hn. apply IH; assumption.
+Qed.
+
+(* when the path chosen for the key never reaches a leaf (every node on it names a next node: a cycle) find
+   throws "loop detected in find" *)
+Lemma nntree_find_cycle_reported_lemma : forall g root, c4_wf g ->
+  (forall k nd, c4_find g k = Some nd ->
+     (1 <? c4n_items nd) = false /\ exists i next, c4n_pick nd = Some i /\ nth_error (c4n_kids nd) i = Some next /\ In next (c4_keys g)) ->
+  In root (c4_keys g) ->
+  fst (c4_nn_find (S (length g)) g root [] 0) = C4fLoop.
+Proof.
+  intros g root Hwf H Hin. destruct (nntree_find_fuel_lemma g root Hwf) as [Hf _].
+  destruct (c4_nn_find_cyclic (S (length g)) g root [] 0 H Hin) as [H1|H1]; [exact H1 | contradiction].
+Qed.
+
+(* the family of trees in which every level lists the next level twice: d + 1 nodes *)
+Fixpoint c4_nn_dag (d : nat) (i : N) : list (N * c4_nnode) :=
+  match d with
+  | O => [(i, mkC4nnode 2 true [] None)]
+  | S d' => (i, mkC4nnode 0 false [i + 1; i + 1] None) :: c4_nn_dag d' (i + 1)
+  end.
+
+(* REFUTED: "the number of leaf visits of a whole-tree iteration is linear in the number of nodes".
+   NNTreeIterator::deepen remembers only the nodes of the current path, so shared nodes are expanded again and again:
+   11 nodes, 1024 leaf visits (2^d in general; observed on the real binary, finding D-C04-nntree-dag). *)
+Lemma nntree_iter_linear_refuted_lemma : exists g root,
+  length g = 11%nat /\ c4_wf g /\
+  c4_nn_iter (20 * 400) g root = (mkC4ist 1024 1024 0, true).
+Proof.
+  exists (c4_nn_dag 10 1), 1. split; [reflexivity|]. split.
+  - unfold c4_wf. cbn. intuition discriminate.
+  - vm_compute. reflexivity.
+Qed.
